@@ -442,3 +442,144 @@ func libSweep(r *h.Run) {
 		}
 	}
 }
+
+// ---------- composite backend values: two conditions at once ----------
+
+// the precedence the converters are expected to give to their outcomes (the order of their rules as of the unmodified
+// source; mirrored by expected_order in coq/C11/Conv.v, which theorem rule_order_as_expected compares with the
+// generated tables): a deadline first
+var outcomeOrder = map[string][]string{
+	"fs":   {"ErrTimeout", "ErrExists", "ErrConflict", "ErrNotFound", "ErrInvalid", "ErrOutOfRange", "ErrTooLarge", "ErrNotImplemented", "ErrEOF"},
+	"proc": {"os.ErrProcessDone", "nil", "ErrTimeout", "ErrNotFound", "ErrNotImplemented"},
+	"io":   {"ErrEOF"},
+}
+
+func rank(conv, out string) int {
+	for i, o := range outcomeOrder[conv] {
+		if o == out {
+			return i
+		}
+	}
+	return -1
+}
+
+type compositeScenario struct {
+	A     string `json:"a"`
+	B     string `json:"b"`
+	Shape string `json:"shape"` // join | pathjoin | text
+}
+
+func platformTrigger(v error) bool {
+	return strings.Contains(strings.ToLower(v.Error()), "not supported")
+}
+
+func runComposite(r *h.Run, cs compositeScenario, bases map[string]bval, emit bool) {
+	a, okA := bases[cs.A]
+	b, okB := bases[cs.B]
+	if !okA || !okB {
+		return
+	}
+	var v bval
+	switch cs.Shape {
+	case "join":
+		v = bval{"join(" + a.name + ", " + b.name + ")", errors.Join(a.val, b.val), "(BJoin " + a.coq + " " + b.coq + ")"}
+	case "pathjoin":
+		j := errors.Join(a.val, b.val)
+		v = bval{"PathError(join(" + a.name + ", " + b.name + "))", &os.PathError{Op: "close", Path: "/x", Err: j}, "(BPath true " + h.Str("close /x") + " (BJoin " + a.coq + " " + b.coq + "))"}
+	default: // one description that spells both conditions
+		t := a.val.Error() + ": " + b.val.Error()
+		v = opaque(t)
+	}
+	sc := scenario{Kind: "composite", Composite: &cs}
+	r.Count("backend-composite:" + cs.Shape)
+	rawCanceled := errors.Is(v.val, context.Canceled)
+	rawDeadline := errors.Is(v.val, context.DeadlineExceeded)
+	for _, cv := range convFns {
+		r.Eval()
+		out := cv.f(v.val)
+		if emit {
+			txt := ""
+			var ks []int
+			if out != nil {
+				txt, ks = out.Error(), kindsOf(out)
+			}
+			r.Case(fmt.Sprintf("(CConvB %d %s %s %s %s)", cv.id, v.coq, h.Bool(out == nil), h.Str(txt), coqNats(ks)), sc)
+		}
+		if cv.name == "platform" {
+			continue
+		}
+		got := outcome(out)
+		switch {
+		case rawCanceled || rawDeadline: // a cancellation / deadline reachable from the value wins
+			want := "ErrCancelled"
+			if !rawCanceled {
+				want = "ErrTimeout"
+			}
+			if got != want {
+				r.Fail("converter-context-reclassified:"+cv.name, fmt.Sprintf("%s converter maps %s (%q) to %s", cv.name, v.name, v.val.Error(), got), sc)
+			}
+			continue
+		case cs.Shape == "text" && !(isText(a) && isText(b)):
+			continue // only descriptions built from the texts the predicates look for
+		}
+		oa, ob := outcome(cv.f(a.val)), outcome(cv.f(b.val))
+		if cv.name == "fs" && (platformTrigger(a.val) || platformTrigger(b.val)) {
+			continue // platform.ConvertError runs first and re-reads "not supported" as unsupported: see the report
+		}
+		if cv.name == "fs" && (oa == "ErrTimeout" || ob == "ErrTimeout") { // a deadline is never reclassified (ConvertProcessError has no such rule: exec.ErrWaitDelay comes after "signal: killed" / ESRCH, see outcomeOrder)
+			if got != "ErrTimeout" {
+				r.Fail("converter-deadline-reclassified:"+cv.name, fmt.Sprintf("%s converter maps %s to %s and %s to %s but %s (%q) to %s", cv.name, a.name, oa, b.name, ob, v.name, v.val.Error(), got), sc)
+			}
+			continue
+		}
+		ra, rb := rank(cv.name, oa), rank(cv.name, ob)
+		if ra >= 0 && rb >= 0 && ra != rb { // two conditions of different rules: the unmodified rule order decides
+			want := oa
+			if rb < ra {
+				want = ob
+			}
+			if got != want {
+				r.Fail("converter-rule-order:"+cv.name, fmt.Sprintf("%s converter maps %s to %s and %s to %s; %s (%q) must be %s by the order of the rules, but is %s", cv.name, a.name, oa, b.name, ob, v.name, v.val.Error(), want, got), sc)
+			}
+			r.Distinct("composite|" + cv.name + "|" + v.name)
+		}
+	}
+}
+
+func isText(b bval) bool { return strings.HasPrefix(b.name, "errors.New(") }
+
+func compositeBackendSweep(r *h.Run) {
+	bases := map[string]bval{}
+	var names []string
+	for _, b := range baseValues() {
+		if b.name == "os.ErrProcessDone" {
+			continue // no rule looks for it: it is an OUTCOME of ConvertProcessError, passed through like any unknown error
+		}
+		if isBackendCondition(b) || errors.Is(b.val, context.Canceled) || errors.Is(b.val, context.DeadlineExceeded) {
+			bases[b.name] = b
+			names = append(names, b.name)
+		}
+	}
+	// first the witnesses of the precedence of a deadline
+	for _, p := range [][2]string{{"os.ErrDeadlineExceeded", "os.ErrClosed"}, {"errno(9)", "os.ErrDeadlineExceeded"}, {"errno(17)", "errno(110)"}, {"errors.New(file exists)", "errors.New(i/o timeout)"}} {
+		for _, sh := range []string{"join", "pathjoin", "text"} {
+			runComposite(r, compositeScenario{A: p[0], B: p[1], Shape: sh}, bases, true)
+		}
+	}
+	n := 0
+	for i, a := range names {
+		for j, b := range names {
+			if i == j {
+				continue
+			}
+			n++
+			runComposite(r, compositeScenario{A: a, B: b, Shape: "join"}, bases, r.Thorough() || (n+int(r.Seed))%23 == 0)
+			if (i+j)%5 == 0 {
+				runComposite(r, compositeScenario{A: a, B: b, Shape: "pathjoin"}, bases, (i+j)%50 == 0)
+			}
+			if isText(bases[a]) && isText(bases[b]) {
+				runComposite(r, compositeScenario{A: a, B: b, Shape: "text"}, bases, (i+j)%4 == 0)
+			}
+		}
+	}
+}
